@@ -1,22 +1,28 @@
 ---------------------------- MODULE MwChainTrace ----------------------------
-(* Trace validation for Wrap: each line is one real chain (any length, built *)
-(* by the Go driver with seeded random kinds and nesting) with the visit     *)
-(* log, Server header values and response the real handlers produced; it     *)
-(* must equal the closed form of MwChain (which TLC ties to the step-by-step *)
-(* model with the invariant ClosedForm).                                     *)
+(* Trace validation for Wrap: each line is one real array of middlewares     *)
+(* (any length, built by the Go driver with seeded random kinds, nesting,    *)
+(* overlap and spare capacity) wrapped several times in a row, with the      *)
+(* visit log, Server header values and response of every round and whether   *)
+(* the array was still what the caller wrote; every round must equal the     *)
+(* closed form of MwChain (which TLC ties to the step-by-step model with the *)
+(* invariant ClosedForm).                                                    *)
 EXTENDS MwChain, Json
 
 Trace == ndJsonDeserialize("mwchain_trace.ndjson")
 VARIABLE l
 tvars == <<vars, l>>
 
-TInit == /\ mws = <<>> /\ hk = "rec" /\ split = 0 /\ phase = "done" /\ i = 0 /\ wrapped = <<>>
+TInit == /\ mws = <<>> /\ hk = "rec" /\ k = 0 /\ j = 0 /\ arr = <<>> /\ round = 1
+         /\ phase = "done" /\ i = 0 /\ wrapped = <<>>
          /\ pos = 0 /\ dir = "up" /\ visits = <<>> /\ server = <<>> /\ resp = NoResp
          /\ l = 1
 
-LineOK(e) == /\ e.visits = ExpectedVisitsOf(e.mws, e.hk)
-             /\ e.server = ExpectedServerOf(e.mws)
-             /\ e.resp = ExpectedRespOf(e.mws, e.hk)
+LineOK(e) == LET eff == EffOf(Len(e.mws), e.k, e.j) IN
+             /\ e.intact
+             /\ \A r \in 1..Len(e.rounds) :
+                  /\ e.rounds[r].visits = ExpectedVisitsOf(e.mws, eff, e.hk)
+                  /\ e.rounds[r].server = ExpectedServerOf(e.mws, eff)
+                  /\ e.rounds[r].resp = ExpectedRespOf(e.mws, eff, e.hk)
 
 TNext == /\ l <= Len(Trace)
          /\ LineOK(Trace[l])
